@@ -253,7 +253,7 @@ example : ∀ f ∈ ([(1, 1), (0, 0)] : Model.Term), f.2 < 2 := by decide
 /-- **Majorana products are operator products**: `MajoranaOperator.__mul__` (`mmul`, signs from
 `_merge_majorana_terms`) is composition of the denoted endomorphisms when the left factor has
 strictly increasing terms (which `MajoranaOperator.__init__` guarantees). -/
-theorem majorana_mul_hom (a b : Model.MOp) (ha : SortedM a) : evM (mmul a b) = evM a * evM b :=
+theorem majorana_mul_hom (a b : Model.MOp) (ha : SortedM a) : evM (Model.mmul a b) = evM a * evM b :=
   evM_mmul a b ha
 
 end OFV.C08
